@@ -83,6 +83,25 @@ func checkStmt(dialect, qual, q string, u *universe, st stmt, stats *refStats) (
 		return nil, err
 	}
 	hd := head(tk, 3)
+	// single-clause statements: add the keyword that follows the statement's first name chain
+	// (ALTER TYPE … RENAME / ADD, ALTER INDEX … RENAME, COMMENT ON TABLE … IS, CREATE TYPE … AS).
+	if hd != "ALTER TABLE" && hd != "CREATE TABLE" {
+		j := 0
+		for j < len(tk) && tk[j].K == kWord && !isNameOf(u, tk[j]) {
+			j++
+		}
+		for j < len(tk) && tk[j].isName() {
+			if j+2 < len(tk) && tk[j+1].K == kPunct && tk[j+1].V == "." && tk[j+2].isName() {
+				j += 2
+				continue
+			}
+			j++
+			break
+		}
+		if j < len(tk) && tk[j].K == kWord && j > 0 && tk[j-1].K == kIdent {
+			hd += " … " + strings.ToUpper(tk[j].V)
+		}
+	}
 	if stats != nil {
 		stats.Stmts++
 		if st.Role == "reverse" {
@@ -101,7 +120,7 @@ func checkStmt(dialect, qual, q string, u *universe, st stmt, stats *refStats) (
 	}
 	// top-level index reference (PostgreSQL): first name chain after the head keywords.
 	idxAt := -1
-	if dialect == "postgres" && (hd == "DROP INDEX" || hd == "COMMENT ON INDEX" || hd == "ALTER INDEX") {
+	if h3 := head(tk, 3); dialect == "postgres" && (h3 == "DROP INDEX" || h3 == "COMMENT ON INDEX" || h3 == "ALTER INDEX") {
 		j := 0
 		for j < len(tk) && tk[j].K == kWord && !isNameOf(u, tk[j]) {
 			j++
@@ -138,11 +157,14 @@ func checkStmt(dialect, qual, q string, u *universe, st stmt, stats *refStats) (
 		default:
 			continue
 		}
+		if kind == "type" && j+1 < len(tk) && tk[j+1].K == kPunct && tk[j+1].V == "[" {
+			kind = "type[]"
+		}
 		if stats != nil {
 			switch kind {
 			case "table":
 				stats.Table++
-			case "type":
+			case "type", "type[]":
 				stats.Type++
 			case "index":
 				stats.Index++
@@ -165,6 +187,12 @@ func checkStmt(dialect, qual, q string, u *universe, st stmt, stats *refStats) (
 			ctx = "<ident>"
 		default:
 			ctx = tk[k-1].V
+		}
+		// PostgreSQL: the new name of ALTER TABLE / INDEX / TYPE … RENAME TO <new_name> is a bare name by
+		// grammar (it cannot carry a schema); it names nothing that exists yet and is not a reference.
+		if dialect == "postgres" && len(got) == 0 && k >= 2 && tk[k-1].K == kWord && strings.EqualFold(tk[k-1].V, "TO") &&
+			tk[k-2].K == kWord && strings.EqualFold(tk[k-2].V, "RENAME") {
+			continue
 		}
 		written := strings.Join(append(append([]string(nil), got...), name), ".")
 		switch qual {
